@@ -254,7 +254,7 @@ class Hist:
 def reach_again(h, rnd, src, dst):
     """make register dst denote the same integer as src by a different route"""
     kind, v = h.regs[src]
-    route = rnd.choice(['ctor', 'sub_down', 'xor', 'shift_rt', 'mul_div', 'and_or', 'bits', 'big_then_small', 'neg_neg', 'rem', 'clone_from'])
+    route = rnd.choice(['ctor', 'sub_down', 'xor', 'shift_rt', 'mul_div', 'and_or', 'bits', 'big_then_small', 'neg_neg', 'rem', 'clone_from', 'scalar_zero', 'scalar_zero'])
     if kind == 'U' and route == 'neg_neg':
         route = 'ctor'
     if route == 'ctor':
@@ -340,6 +340,18 @@ def reach_again(h, rnd, src, dst):
             kk, cur = h.regs[dst]
             t = h.lit(kind, cur - v)
             h.op_big(dst, '-=', t)
+    elif route == 'scalar_zero':
+        # reach zero through a scalar: x *= s; x %= s (or x -= x via /=), for every scalar width incl. values above u64::MAX;
+        # then add v back
+        w = rand_digits(rnd, rnd.choice((1, 2, 3))) * (rnd.choice((1, -1)) if kind == 'I' else 1) or 5
+        h.construct(dst, kind, w)
+        ty = rnd.choice(('u8', 'u16', 'u32', 'u64', 'u128', 'usize') + (('i8', 'i16', 'i32', 'i64', 'i128', 'isize') if kind == 'I' else ()))
+        lo, hi = STYPES[ty]
+        s = rnd.choice((hi, hi - 1, (hi >> 1) + 1, lo if lo < 0 else 3, 7))
+        h.op_scalar(dst, '*=', ty, s)
+        h.op_scalar(dst, '%=', ty, s)
+        t = h.lit(kind, v)
+        h.op_big(dst, rnd.choice(('+=', '|=', '^=')), t)
     elif route == 'neg_neg':
         h.construct(dst, kind, -v)
         h.simple(dst, 'hneg')
